@@ -67,4 +67,10 @@ META = {
         "note": "Trusted: Lean kernel; Go runtime slice growth (oracle); bytes.Buffer of the installed toolchain as the reference.",
         "technique": "Lean 4 invariant proof over operation sequences on a concrete buffer model; three-way differential lock-step",
     },
+    "C18": {
+        "text": "Proof over all iteration orders of the Go map: with the privacy flag on, absolute keys, relative non-empty replacements and rules that keep relative paths relative, no path under a registered mapping keeps that prefix (the first mapping that fires makes the path relative, after which nothing matches and the final relativisation is skipped); the hypotheses are shown necessary by a proved counterexample. One known finding (explicitly removing the home mapping unprotects home) is replayed and reported as KNOWN-FINDING. Correspondence: mapping-table histories, repeated queries, answer accepted iff it equals the model's for some permutation.",
+        "design_ref": "DESIGN.md §7 C18",
+        "note": "Trusted: Lean kernel; regexp and filepath of the Go standard library (two rule shapes modelled by hand, Rel as atom).",
+        "technique": "Lean 4 proof quantified over permutations (List.Perm) of the mapping table; differential run with permutation-set acceptance",
+    },
 }
